@@ -3,6 +3,8 @@
 While armed, every top-level call (depth 0) of a file-system / archive / pickling primitive made by the
 code under test is a *fault point*: it is logged as (label, call site) and the call with index
 `fail_at` raises the chosen exception instead of (mode 'before') or after (mode 'after') doing its work.
+`fail_at` may also be a triple (label, call site, n): the n-th (from 0) call with that label made from that site -
+a name of the fault point that stays meaningful when the operation is repeated in another state of the files.
 Calls made from inside an intercepted primitive are not fault points (they are the primitive's business),
 calls made inside `tempfile.TemporaryDirectory()` / `mkdtemp()` are shielded (the statement does not cover
 a failing creation of the scratch directory).
@@ -28,6 +30,7 @@ class Injector:
         self.mode = "before"
         self.flavour = "EIO"
         self.fired = None
+        self.seen = 0
         self._orig = []
         self.installed = False
 
@@ -68,8 +71,15 @@ class Injector:
                 finally:
                     inj.depth -= 1
             idx = len(inj.log)
-            inj.log.append((label, inj._site()))
-            hit = idx == inj.fail_at
+            entry = (label, inj._site())
+            inj.log.append(entry)
+            if type(inj.fail_at) is tuple:
+                hit = False
+                if entry == inj.fail_at[:2] and inj.fired is None:
+                    inj.seen += 1
+                    hit = inj.seen == inj.fail_at[2] + 1
+            else:
+                hit = idx == inj.fail_at
             if hit and (inj.mode == "before" or label in NO_AFTER):
                 inj.fired = (label, inj.log[-1][1])
                 if label == "ZipFile.close" and a and getattr(a[0], "fp", None) is not None:
@@ -157,6 +167,7 @@ class Injector:
     def run(self, func, fail_at=None, mode="before", flavour="EIO"):
         """Run func() armed. Returns (result, exception, log, fired)."""
         self.log, self.fail_at, self.mode, self.flavour, self.fired, self.depth = [], fail_at, mode, flavour, None, 0
+        self.seen = 0
         self.armed = True
         try:
             try:
